@@ -201,6 +201,30 @@ def abort_table(mod, clsname, kind):
     return out
 
 
+def _calls(tree, pred):
+    return [n for n in ast.walk(tree) if isinstance(n, ast.Call) and isinstance(n.func, ast.Attribute)
+            and pred(n.func)]
+
+
+def single_write_path(repo):
+    """call-site facts: in session.py every `<..>.transport.write(..)` call is the one inside
+    SessionBase._send_message (so every sender - responses, requests, notifications - goes through
+    the max_send_delay wrapper); in rawsocket.py / unixsocket.py the only
+    `<..>._asyncio_transport.write(..)` call is the one inside the transport's `write`"""
+    ok = True
+    st = common.parse(repo, 'aiorpcx/session.py')
+    is_tw = lambda f: f.attr == 'write' and isinstance(f.value, ast.Attribute) and f.value.attr == 'transport'
+    inside = common.find(st, 'SessionBase._send_message')
+    ok &= inside is not None and len(_calls(st, is_tw)) == 1 and len(_calls(inside, is_tw)) == 1
+    for rel, cls in (('aiorpcx/rawsocket.py', 'RSTransport'), ('aiorpcx/unixsocket.py', 'USTransport')):
+        t = common.parse(repo, rel)
+        is_aw = lambda f: f.attr == 'write' and isinstance(f.value, ast.Attribute) \
+            and f.value.attr == '_asyncio_transport'
+        w = common.find(t, f'{cls}.write')
+        ok &= w is not None and len(_calls(t, is_aw)) == len(_calls(w, is_aw))
+    return bool(ok)
+
+
 def close_table(mod, clsname, kind):
     """what `await proto.close(force_after)` calls on the asyncio transport (with the closed
     event already set, so that the wait returns at once), closing or not; and the truth table
@@ -246,6 +270,7 @@ def extract(repo):
         'send_wraps_write': wraps, 'send_aborts_unconditionally': aborts,
         'abort_rs': abort_table(rs, 'RSTransport', kind),
         'abort_us': abort_table(us, 'USTransport', kind),
+        'single_write_path': single_write_path(repo),
         'close_rs': close_table(rs, 'RSTransport', kind),
         'close_us': close_table(us, 'USTransport', kind),
         'write_loops_rs': write_shape(common.parse(repo, 'aiorpcx/rawsocket.py'), 'RSTransport'),
@@ -308,6 +333,9 @@ def render(f):
         '/-- `await transport.abort()` calls exactly `abort()` on the asyncio transport, whether\n'
         '    or not it is already closing (both transports) -/\n'
         f'def abortAborts : Bool := {b(f["abort_rs"] == [["abort"], ["abort"]] and f["abort_us"] == [["abort"], ["abort"]])}\n'
+        '/-- session.py writes to the transport only inside `_send_message`; the transports write\n'
+        '    to the asyncio transport only inside their `write` -/\n'
+        f'def singleWritePath : Bool := {b(f["single_write_path"])}\n'
         '/-- `await transport.close(force_after)` first calls exactly `close()` on the asyncio\n'
         '    transport (both transports, closing or not) -/\n'
         f'def closeCloses : Bool := {b(all(c[0] == [["close"], ["close"]] for c in (f["close_rs"], f["close_us"])))}\n'
